@@ -122,7 +122,8 @@ def run_scenario(pid, sc, tier, seed, catalogue, out):
         rnd = random.Random(seed)
         t = traces[rnd.randrange(len(traces))]
         out['samples'].append({'scenario': mod, 'behaviour': [
-            dict({k: s[k] for k in s if k not in ('dev', 'p')}, predicted_and_observed={k: s['p'][k] for k in ('r', 'o', 'e', 'q')})
+            dict({k: s[k] for k in s if k not in ('dev', 'p')},
+                 **({'predicted_and_observed': {k: s['p'][k] for k in ('r', 'o', 'e', 'q')}} if 'p' in s else {}))
             for s in t][:8]})
     for d in divs:
         d['scenario'] = mod
